@@ -1,12 +1,22 @@
 #!/bin/bash
-# usage: tools/run_suite.sh <checkout-dir>  -- runs the repository's test suite in that checkout (xdist for buidl/, serial for the two
-# CLI test files, which drive a child process with pexpect timeouts and are retried when the machine is loaded)
+# usage: tools/run_suite.sh <checkout-dir>
+# Runs the repository's test suite in that checkout: xdist for buidl/, then every test file that had a failure other than the 15
+# test_socket_guard tests (which fail on the pristine tree too) is re-run serially (some tests depend on a cache another test module
+# loads in the same process, and the two CLI test files drive a child process with pexpect timeouts that trip when the machine is loaded).
 D=${1:-/repo}
 cd $D
-PYTHONPATH=$D /venv/bin/python -m pytest -q -p no:cacheprovider -p no:rerunfailures -n 12 --timeout=900 buidl 2>&1 | tail -3 > /tmp/suite_a.$$
+A=/tmp/suite_a.$$; B=/tmp/suite_b.$$
+PYTHONPATH=$D /venv/bin/python -m pytest -q -rf -p no:cacheprovider -p no:rerunfailures -n 12 --timeout=900 buidl > $A 2>&1
+FILES=$(grep '^FAILED' $A | grep -v test_socket_guard | sed 's/^FAILED \([^:]*\)::.*/\1/' | sort -u)
+EXTRA=""
+if [ -n "$FILES" ]; then
+  PYTHONPATH=$D /venv/bin/python -m pytest -q -rf -p no:cacheprovider -p no:rerunfailures --timeout=900 $FILES > $B 2>&1
+  STILL=$(grep '^FAILED' $B | grep -v test_socket_guard | tr '\n' ' ')
+  EXTRA=" | serial re-run of [$FILES]: $(tail -1 $B) ; non-guard failures after re-run: [${STILL:-none}]"
+fi
 for try in 1 2 3 4; do
-  PYTHONPATH=$D /venv/bin/python -m pytest -q -p no:cacheprovider -p no:rerunfailures --timeout=900 test_multiwallet.py test_singlesweep.py 2>&1 | tail -2 > /tmp/suite_b.$$
-  grep -q "failed" /tmp/suite_b.$$ || break
+  PYTHONPATH=$D /venv/bin/python -m pytest -q -p no:cacheprovider -p no:rerunfailures --timeout=900 test_multiwallet.py test_singlesweep.py 2>&1 | tail -2 > $B
+  grep -q "failed" $B || break
   sleep 20
 done
-echo "buidl/: $(tail -1 /tmp/suite_a.$$)"; echo "cli (attempt $try): $(tail -1 /tmp/suite_b.$$)"; rm -f /tmp/suite_a.$$ /tmp/suite_b.$$
+echo "buidl/ (xdist): $(tail -1 $A)$EXTRA"; echo "cli (attempt $try): $(tail -1 $B)"; rm -f $A $B
